@@ -8,6 +8,7 @@ import time
 
 from . import core
 
+SPEC_SUFFIX = __import__("re").compile(r" ## .*?(?= ;; |$)")
 DRIFT_FACTOR = 6   # quick-tier sample multiplier when a file the property is anchored in has changed
 
 
@@ -104,9 +105,21 @@ class Runner:
             return
         nt = tie.get("nontrivial")
         canon = tie.get("canon")
+        judge = tie.get("judge")
         for i, (c, g, m, o) in enumerate(zip(cases, gobs, mobs, orac)):
             res.cases += 1
             if has_model:
+                # a model line may carry, behind " ## ", what the independent FIDE specification says about the case: that part
+                # is not compared with the implementation; the tie's judge reads it (spec-based oracle)
+                m_full = m
+                m = SPEC_SUFFIX.sub("", m)
+                if judge:
+                    try:
+                        extra = judge(c, g, m_full)
+                    except Exception as ex:       # a malformed line is a broken correspondence, not a verdict
+                        extra = None
+                    if extra:
+                        o = (o + " ;; " + extra) if o.startswith("FAIL") else ("FAIL " + extra)
                 gg, mm = (canon(g), canon(m)) if canon else (g, m)
                 if gg != mm:
                     if tie.get("spec"):
@@ -129,11 +142,20 @@ class Runner:
                     res.fails.append((shard, i, c, g, o))
             elif not o.startswith("OK"):
                 res.error = "unparseable oracle line %d: %r" % (i, o[:200])
-            if nt is None or nt(c, g):
-                res.nontrivial.add(c)
+            # the classification callbacks describe the sample; an observable they cannot read (e.g. "panic" where a number
+            # is expected, which only a changed implementation prints) must not stop the verdict
+            try:
+                if nt is None or nt(c, g):
+                    res.nontrivial.add(c)
+            except Exception:
+                pass
             st = tie.get("stat")
             if st:
-                for key in st(c, g):
+                try:
+                    keys = list(st(c, g))
+                except Exception:
+                    keys = ["unclassifiable observable"]
+                for key in keys:
                     res.stats[key] = res.stats.get(key, 0) + 1
         rnd = random.Random(self.seed * 7919 + shard)
         idx = sorted(set([0, len(cases) // 2, len(cases) - 1] + [rnd.randrange(len(cases)) for _ in range(2)])) if cases else []
